@@ -219,6 +219,9 @@ def range_cases(draw):
             pipe.append(["filter.inv", {"filter_method": "bilateral", "sigma_space": draw(st.sampled_from([0.7, 1.0])),
                                         "sigma_color": draw(st.sampled_from([1.0, 2.0, 5.0]))}])
     p = {"pair": pair, "AB": [A, B], "pipeline": pipe}
+    if not use_grid and draw(st.integers(0, 3)) == 0:
+        ra = -B + draw(st.sampled_from([-2, -1, 1]))
+        p["right_interval"] = [ra, max(ra, -A + draw(st.sampled_from([-1, 0, 1, 2])))]
     if use_grid:
         p["grid"] = draw(grid_spec(pair["H"], pair["W"], A, B))
     return p
@@ -237,6 +240,10 @@ def range_body(ctx: Ctx, p: dict) -> None:
         lo, hi = np.full((H, W), A, dtype=np.float32), np.full((H, W), B, dtype=np.float32)
         disp = (A, B)
         right_disp = None
+        if p.get("right_interval") and "validation" in names:
+            # the right image comes with its OWN [min, max] interval, which is not the mirror of the left one
+            right_disp = tuple(p["right_interval"])
+    rlo, rhi = (float(right_disp[0]), float(right_disp[1])) if (right_disp is not None and np.ndim(right_disp[0]) == 0) else (None, None)
     gmin, gmax = float(lo.min()), float(hi.max())
     state = {"pure": True, "changed": False, "prev": None, "offsample_refined": False, "subpix": 1}
 
@@ -307,19 +314,25 @@ def range_body(ctx: Ctx, p: dict) -> None:
     if "disparity_map" in res.right:
         dr, mr = res.right["disparity_map"].data, res.right["validity_mask"].data
         vr = (mr & INV) == 0
-        badr = vr & ~((dr >= -gmax - 1e-6) & (dr <= -gmin + 1e-6))
-        if badr.any() and state.get("offsample_refined_right") and not (vr & ~((dr >= -gmax - half) & (dr <= -gmin + half))).any():
+        rmin, rmax = (-gmax, -gmin) if rlo is None else (rlo, rhi)
+        badr = vr & ~((dr >= rmin - 1e-6) & (dr <= rmax + 1e-6))
+        if badr.any() and state.get("offsample_refined_right") and not (vr & ~((dr >= rmin - half) & (dr <= rmax + half))).any():
             r, c = np.argwhere(badr)[0]
             ctx.violation("C09/refinement-of-off-sample-disparity-leaves-interval",
-                          f"right pixel {(int(r), int(c))} d={dr[r, c]} interval [{-gmax},{-gmin}] pipeline={p['pipeline']}")
+                          f"right pixel {(int(r), int(c))} d={dr[r, c]} interval [{rmin},{rmax}] pipeline={p['pipeline']}")
         elif badr.any():
             r, c = np.argwhere(badr)[0]
             ctx.violation("C09/final-right-disparity-outside-global-interval", f"pixel {(int(r), int(c))} d={dr[r, c]} "
-                                                                               f"interval [{-gmax},{-gmin}] pipeline={p['pipeline']}")
+                                                                               f"interval [{rmin},{rmax}] pipeline={p['pipeline']}")
+        ivr = res.right["disparity_interval"].data
+        if float(ivr[0]) != rmin or float(ivr[1]) != rmax:
+            ctx.violation("C09/right-disparity-interval-not-the-one-requested", f"{ivr.tolist()} vs [{rmin},{rmax}]")
     ctx.judged += int(valid.sum())
     classes = ["grid" if "grid" in p else "scalar"]
     if any("interpolated_disparity" in c for _, c in p["pipeline"]):
         classes.append("filling")
+    if rlo is not None:
+        classes.append("right-image-own-interval")
     ctx.case(p, nontrivial=bool(state["changed"]), classes=classes)
 
 
